@@ -49,9 +49,18 @@ def _cast_attr(v, dtype):
     return np.asarray(v, dtype=dt)
 
 
+class _AttrId:
+    def __init__(self, v):
+        self.dtype = np.asarray(v).dtype if not hasattr(v, "e") \
+            else np.dtype(float)
+
+
 class Attrs(dict):
     def create(self, k, v, shape=None, dtype=None):
         self[k] = _cast_attr(v, dtype)
+
+    def get_id(self, k):
+        return _AttrId(self[k])
 
     def __setitem__(self, k, v):
         if not isinstance(k, str):
@@ -128,6 +137,10 @@ class Dataset(Node):
         self.fletcher32 = fletcher32
         self.compression = None if zstd is None else "zstd"
 
+    #: virtual / external storage (never produced by dclab; set by
+    #: corruption scenarios)
+    is_virtual = False
+    external = None
     shape = property(lambda s: tuple(s.data.shape))
     dtype = property(lambda s: s.data.dtype)
     size = property(lambda s: s.data.size)
